@@ -239,6 +239,9 @@ func VxC16Follow() {
 	}
 	late := start + n + 1
 	c.appear[2] = []*ltx.FileInfo{{Level: 0, MinTXID: late, MaxTXID: late, Size: 4096}}
+	// the snapshot the follower was restored from (snapshots are rare: the follower
+	// is normally ahead of the newest one)
+	c.files = append(c.files, &ltx.FileInfo{Level: SnapshotLevel, MinTXID: 1, MaxTXID: start, Size: 4096})
 	r := NewReplicaWithClient(nil, c)
 
 	// ghost: the TXID the database content is at, and what the sidecar said when each apply happened
@@ -290,7 +293,9 @@ func VxC16Follow() {
 		}
 		applied = info.MaxTXID
 	}
-	ferr = r.follow(ctx2, out, side, time.Millisecond)
+	// the restart goes through Restore's crash-recovery entry: sidecar read,
+	// validation against the replica's snapshots, then the loop
+	ferr = r.Restore(ctx2, RestoreOptions{OutputPath: out, Follow: true, FollowInterval: time.Millisecond})
 	side2, rerr2 := ReadTXIDFile(out)
 	vx.Assert("resume-connects-to-sidecar", resumedOK)
 	vx.Assert("resume-converges", ferr == nil && rerr2 == nil && side2 == late && applied == late)
